@@ -22,3 +22,7 @@ claim("C03", "runtime monitoring: icontract class invariant on Angle + exact-rat
       "Every constructor form (decimal, radians, hours, 2/3/4 sexagesimal pieces as arguments/tuple/list, sign on any piece) and 21 operator forms x {Angle,int,float} operands are executed on ~3e5 (quick) / 6e6 (thorough) generated inputs concentrated on multiples of 360, ulp neighbours, denormals and overflowing pieces; results are compared with exact Fraction/Decimal arithmetic mod 360 and operand snapshots; the class invariant -360 < value < 360 is evaluated after every public Angle method (4e7 evaluations per quick run), including on Angles built inside real Coordinates/Sun/Moon calls.",
       "tolerance 1e-9*max(1,|exact|); divisors 0<|b|<1e-9 not generated; powers judged only where a real result <= 1e15 exists",
       "DESIGN.md section 3 C03")
+claim("C04", "runtime monitoring: exact-rational recombination oracle and a permissive parser of the printed fields, on values generated at the rounding break points",
+      "About 9e4 (quick) / 6e5 (thorough) Angle values placed at and around whole seconds/minutes/degrees/hours and at +-(0.5*10^-n) of them are decomposed (dms_tuple, ra_tuple, deg2dms, dms2deg) and printed (dms_str, ra_str, both styles, n_dec -1..12; ~1.2e6 strings per quick run); ranges, integer types, no-60, sign placement and read-back within half a printed unit are checked on every result.",
+      "read-back tolerance is half a unit of the last printed decimal + 1e-9 degree; 24h/360d after a carry is accepted (congruence)",
+      "DESIGN.md section 3 C04")
